@@ -1104,8 +1104,42 @@ func (in *c19Inst) attempt(q c19Req, g c19Guess, transport string) []*http.Cooki
 	return cks
 }
 
+// c19SwitchSpellings: the two switches of the dashboard written as JSON strings. A configuration that spells a switch in
+// a way the decoder refuses is fine (the process does not start). One that is accepted has to mean what it says:
+// a spelling anyone reads as "on" for enable_loopback_authn must put loopback clients behind the login, and a spelling
+// anyone reads as "off" for disable_authn must not switch authentication off.
+func c19SwitchSpellings(c *vk.Case) {
+	on := []string{"true", "TRUE", "True", "t", "T", "1", "yes", "on", "enabled", "true\r", " true"}
+	off := []string{"false", "FALSE", "f", "0", "no", "off", "disabled", ""}
+	try := func(field, spelled string, wantAuthnFor string) {
+		doc, _ := json.Marshal(map[string]any{"dashboard": map[string]any{field: spelled, "root_password": "pw-of-the-switch-probe"}})
+		var root config.Root
+		c.Obs("switch_spellings_probed", 1)
+		if err := json.Unmarshal(doc, &root); err != nil {
+			c.Obs("switch_spellings_refused", 1)
+			return
+		}
+		in := &c19Inst{c: c, disable: root.Dashboard.DisableAuthn, lbAuthn: root.Dashboard.EnableLoopbackAuthn, conf: &root}
+		in.adopt(c19NewHandler(c, in.conf))
+		out := in.do(in.prot, c19Req{Method: "GET", Target: "/add-source", Remote: wantAuthnFor})
+		if out.Ran > 0 {
+			c.Violate("served-without-session:switch-spelled-as-string:"+field, map[string]any{"configuration": string(doc), "remote": wantAuthnFor, "observed": out},
+				"the configuration %s is accepted, and a client at %s reaches a protected handler without a session", doc, wantAuthnFor)
+		}
+	}
+	for _, s := range on {
+		try("enable_loopback_authn", s, "127.0.0.1:4000")
+	}
+	for _, s := range off {
+		try("disable_authn", s, "203.0.113.9:4000")
+	}
+}
+
 func c19LoginGrid(c *vk.Case, combo int) {
 	r := c.R
+	if combo == 0 {
+		c19SwitchSpellings(c)
+	}
 	disable, lbAuthn, generated := combo&4 != 0, combo&2 != 0, combo&1 != 0
 	in := c19NewInst(c, disable, lbAuthn, generated, c19Password(r))
 	if generated {
